@@ -363,7 +363,7 @@ pub fn run(tier: &str) -> i32 {
     let mut f = findings.into_inner().unwrap();
     f.sort_by_key(|x| (x.sig.clone(), x.program.len()));
     o.findings = f;
-    crate::e3::fold_e3(&mut o, "C16", tier, &bodies(tier), "e3_");
+    crate::e3::fold_e3(&mut o, "C16", tier, &crate::e3::with_variants(bodies(tier), tier), "e3_");
     o.wall_s = t0.elapsed().as_secs_f64();
     finish(o)
 }
@@ -372,7 +372,7 @@ pub fn replay(v: &serde_json::Value) -> i32 {
     if v["engine"] == "E3-schedcheck" {
         let tier = v["variant"]["tier"].as_str().unwrap_or("quick");
         let choices: Vec<usize> = v["variant"]["choices"].as_array().map(|a| a.iter().filter_map(|c| c.as_u64().map(|c| c as usize)).collect()).unwrap_or_default();
-        return crate::e3::replay_schedule(&*bodies(tier)[0].body, &choices);
+        return crate::e3::replay_schedule(&*crate::e3::with_variants(bodies(tier), tier)[0].body, &choices);
     }
     let idx: Vec<usize> = v["variant"]["case"].as_array().map(|a| a.iter().filter_map(|x| x.as_u64().map(|x| x as usize)).collect()).unwrap_or_default();
     for thorough in [false, true] {
